@@ -15,7 +15,7 @@ from ..prop import Prop
 from ..ref import frames
 from .. import ops
 
-ALPHABET = ["connect", "op_ok", "op_raise", "drop", "disconnect", "refused", "ctx_ok", "ctx_exc", "op_big", "connect_cancelled"]
+ALPHABET = ["connect", "op_ok", "op_raise", "drop", "disconnect", "refused", "ctx_ok", "ctx_exc", "op_big", "connect_cancelled", "disconnect_during_op"]
 
 
 class Boom(Exception):
@@ -61,6 +61,10 @@ def legal(history):
             # connect or async-with on a client that is already connected is an input like any other: afterwards the
             # flag and the socket of the *current* session are judged as usual (what happens to the earlier socket is not)
             connected = a == "connect"
+        elif a == "disconnect_during_op":
+            if not connected:
+                return False
+            connected = False
         elif a in ("op_ok", "op_raise", "drop", "op_big"):
             if not connected:
                 return False
@@ -88,10 +92,10 @@ class C18(Prop):
     level = "fault_enumeration"
     technique = "action/fault histories against a fake device; flag-vs-model assertion after every action, device-side end-of-stream observation after every disconnect"
     rule = ("history = sequence over {connect, successful operation, operation that raises (empty login reply), device drops the connection "
-            "and the client keeps using it, disconnect, refused connect (the device gone, or only this protocol's port closed), async-with with normal body, async-with whose body raises, operation answered with 6 KB, connect cancelled after 0..4 loop cycles followed by a reconnect}; all legal "
+            "and the client keeps using it, disconnect, refused connect (the device gone, or only this protocol's port closed), async-with with normal body, async-with whose body raises, operation answered with 6 KB, connect cancelled after 0..4 loop cycles followed by a reconnect, disconnect from another task while an operation waits for its reply}; all legal "
             "histories of length <= 4 for both API classes (exhaustive, both tiers) plus random legal histories of length 5..10; distinct = "
             "(api type, history); a second, independent instance stays connected to another device throughout and must be unaffected; non-trivial = histories containing a failure action (op_raise, drop, refused, ctx_exc) or a reconnect")
-    level_text = ("All legal action histories up to length 4 over a 10-letter alphabet are enumerated for both API classes on every run, longer "
+    level_text = ("All legal action histories up to length 4 over an 11-letter alphabet are enumerated for both API classes on every run, longer "
                   "ones sampled; after each action the flag is compared with the model and after each disconnect the device must observe end-of-stream.")
     level_note = "connect while connected and operations while disconnected are outside the statement; whether disconnect() raises after a device-side drop is not judged, only the flag and the socket"
     assumptions = ["an operation 'raises' by receiving an empty login reply", "refused connect = the device's listener is closed"]
@@ -326,6 +330,47 @@ class C18(Prop):
                     acc.violation("cannot-connect-after-cancelled-connect", f"type {t} history {history}: after a connect() that was cancelled after {k} loop cycles "
                                   f"({outcome}), connect raised {type(exc).__name__}: {exc}", {"history": history, "trace": trace})
                     model = api.connected and False
+            elif a == "disconnect_during_op":
+                # another task of the application disconnects while an operation is waiting for the device's reply
+                mode["login"] = "ok"
+                arrived, hold = asyncio.Event(), asyncio.Event()
+                held_at = rs.randrange(0, 2)
+                base_frames = len(cur["conn"].frames) if cur["conn"] is not None else 0
+
+                async def gate(conn, idx, frame):
+                    if conn is cur["conn"] and idx - base_frames == held_at:
+                        arrived.set()
+                        await hold.wait()
+
+                dev.gate = gate
+                task = asyncio.ensure_future(do_op())
+                for _ in range(2000):
+                    if arrived.is_set() or task.done():
+                        break
+                    await asyncio.sleep(0)
+                in_flight = arrived.is_set() and not task.done()
+                acc.count("disconnects_while_an_operation_was_in_flight" if in_flight else "disconnects_right_after_an_operation")
+                try:
+                    await bounded(api.disconnect())
+                    trace.append(f"disconnect during op (in flight: {in_flight}) ok")
+                except Hung as exc:
+                    hold.set()
+                    dev.gate = None
+                    hung("disconnect", exc)
+                    break
+                except Exception as exc:
+                    trace.append(f"disconnect during op raised {type(exc).__name__}")
+                    acc.count("disconnect_raised")
+                model = False
+                hold.set()
+                dev.gate = None
+                try:
+                    await bounded(task, 5.0)          # how the interrupted operation ends is its own business
+                except BaseException:
+                    acc.count("interrupted_operations_that_never_ended")
+                cur["unread"] = False      # the device answered into a socket that was already closed: a reset on its side says nothing here
+                await expect_eof(a)
+                cur["conn"] = None
             elif a == "op_ok":
                 mode["login"] = "ok"
                 out = await do_op()
@@ -524,7 +569,7 @@ class C18(Prop):
                 c.closed = True
                 c.writer.close()
         dev.conns.clear()
-        failure = any(a in ("op_raise", "drop", "refused", "ctx_exc", "connect_cancelled") for a in history)
+        failure = any(a in ("op_raise", "drop", "refused", "ctx_exc", "connect_cancelled", "disconnect_during_op") for a in history)
         reconnect = sum(1 for a in history if a in ("connect", "ctx_ok", "ctx_exc")) >= 2
         if failure or reconnect:
             acc.sig(env.sig(t, history))
